@@ -252,6 +252,23 @@ def gray_structured(res):
             res.viol("gray-utils", f"n={n}", "bijection", f"binary_to_gray({n}) = {g}")
         if bin(g ^ binary_to_gray(n + 1)).count("1") != 1:
             res.viol("gray-utils", f"n={n}", "distance-one", f"g({n}) vs g({n + 1})")
+    # the array forms on the same structured values (list and int64 tensor; all of them in one call, and one element at a time for the largest)
+    import torch
+    from kaira.modulations.utils import binary_array_to_gray, gray_array_to_binary
+    vals = sorted(x for x in fam if x >= 0 and x not in (1022, 1023, 1024, 1365))      # (the open finding on 1023 / 1365 is reported by the scalar clauses)
+    for form, conv in (("list", lambda x: x), ("int64", lambda x: torch.tensor(x, dtype=torch.int64))):
+        for chunk in (vals, vals[-3:], vals[len(vals) // 2:len(vals) // 2 + 1]):
+            try:
+                a = [int(t) for t in binary_array_to_gray(conv(chunk)).tolist()]
+                bb = [int(t) for t in gray_array_to_binary(conv(chunk)).tolist()]
+            except Exception as e:  # noqa: BLE001
+                res.viol("gray-utils", f"n<=2^60,{form}", "array=scalar", f"array form on {len(chunk)} structured integers up to {max(chunk)}: {type(e).__name__}: {str(e)[:160]}")
+                continue
+            res.ev(2 * len(chunk), nontrivial=2 * len(chunk), transitions=2)
+            for n_, g_, b_ in zip(chunk, a, bb):
+                if g_ != _g(n_) or b_ != gray_to_binary(n_):
+                    res.viol("gray-utils", f"n<=2^60,{form}", "array=scalar", f"array forms at n={n_}: binary_array_to_gray -> {g_} (scalar {_g(n_)}), gray_array_to_binary -> {b_} (scalar {gray_to_binary(n_)})")
+                    break
     for bad in (-1, -5):
         for f in (binary_to_gray, gray_to_binary):
             try:
